@@ -248,11 +248,15 @@ def generate(rng, tier):
             kind = rng.choice(["sepexp", "gauss", "poly", "corner", "corner", "const"]) if d >= 2 else rng.choice(["sepexp", "gauss", "poly", "const"])
             # the observed call has to be able to show a difference: no integrand that vanishes on (almost) all of the region, except for Miser in few dimensions
             if k == nh and kind == "corner" and not (method == "Miser" and d <= 3): kind = rng.choice(["sepexp", "gauss", "poly", "const"])
+            # Miser: with a flat pre-sample no dimension qualifies for the bisection and the counter iran picks it: the calls on which that counter shows
+            if k == nh and method == "Miser" and rng.random() < 0.5: d = rng.choice([2, 3]); kind = "corner"
             region = rand_region(rng, d, plain=(kind == "corner" and rng.random() < 0.5)); fam = rand_fam(rng, d, kind)
-            ncall = rng.choice([300, 700, 1000, 2000]) if rng.random() < 0.7 else structured_budget(rng, 200, 4500, d)
+            ncall = rng.choice([200, 300, 500, 700, 1000, 2000]) if rng.random() < 0.7 else structured_budget(rng, 200, 4500 if big else 2500, d)
             if ih < nlong and k < nh: ncall = rng.choice([60, 100, 128, 200, 300, 500])
             calls.append([d, method, rng.randrange(2 ** 32), ncall, region, fam, 0])
         obs = calls[-1]
+        # the statics belong to the methods: mostly the history contains a call of the observed call's method
+        if nh > 0 and rng.random() < 0.6: calls[rng.randrange(nh)][1] = obs_method
         for h in calls[:-1]:
             # a history call on the observed call's region (and budget)
             if rng.random() < 0.2:
